@@ -182,6 +182,7 @@ func (p *Program) verifyFuncWith(key string, forceSafety bool, extraTags []strin
 	if ct.HasModifies || ct.Pure {
 		f.frameObligations(ct, final, g)
 	}
+	f.unmatchedSites(ct, key)
 	return
 }
 
